@@ -121,6 +121,18 @@ fn bad(acc: &mut Acc, ty: &str, op: &str, x: i128, exp: String, obs: String) {
 }
 
 fn check_u64(x: u64, do_json: bool, acc: &mut Acc) {
+    if do_json {
+        // the same literal read as the *other* type: a u64 literal into I54 is accepted iff it is within I54's range
+        acc.json += 1;
+        let lit = x.to_string();
+        let d: Result<I54, _> = serde_json::from_str(&lit);
+        let want = x <= I54_HI as u64;
+        match (&d, want) {
+            (Ok(v), true) if i64::from(*v) as u64 == x => {}
+            (Err(_), false) => {}
+            _ => bad(acc, "I54", "json_deserialize_unsigned_literal", x as i128, format!("accept={want}"), format!("{d:?}")),
+        }
+    }
     for a in U53_ANCHORS {
         let v = U53::try_from(a).expect("anchor in range");
         acc.ops += 1;
@@ -208,6 +220,18 @@ const I54_ANCHORS: [i64; 9] = [I54_LO, I54_LO + 1, -4294967296, -1, 0, 1, 429496
 const U53_ANCHORS: [u64; 6] = [0, 1, 4294967296, U53_HI - 1, U53_HI, 255];
 
 fn check_i64(x: i64, do_json: bool, acc: &mut Acc) {
+    if do_json {
+        // a (possibly negative) i64 literal into U53 is accepted iff it lies in [0, 2^53-1]
+        acc.json += 1;
+        let lit = x.to_string();
+        let d: Result<U53, _> = serde_json::from_str(&lit);
+        let want = x >= 0 && x as u64 <= U53_HI;
+        match (&d, want) {
+            (Ok(v), true) if u64::from(*v) == x as u64 => {}
+            (Err(_), false) => {}
+            _ => bad(acc, "U53", "json_deserialize_signed_literal", x as i128, format!("accept={want}"), format!("{d:?}")),
+        }
+    }
     for a in I54_ANCHORS {
         let v = I54::try_from(a).expect("anchor in range");
         acc.ops += 1;
